@@ -1,6 +1,7 @@
 """C04  Untrusted wire or text input only ever raises the library's own errors."""
 
 import re
+import struct
 
 from hypothesis import strategies as st
 
@@ -209,10 +210,32 @@ def run_wire_message(case):
 
 @st.composite
 def wire_message_cases(draw):
-    mode = draw(st.integers(0, 5))
+    mode = draw(st.integers(0, 7))
     origin = None
     signed = False
-    if mode == 0:
+    if mode >= 6:
+        # assembled: any opcode x any section counts x simple records of ordinary and meta classes
+        # and types (well-formed RRs in unusual places: zone-less UPDATE, meta classes in ADDITIONAL,
+        # OPT/TSIG out of place ...)
+        opcode = draw(st.sampled_from([0, 0, 5, 5, 5, 4, 1, 2, 15]))
+        flags_ = (draw(st.integers(0, 0xFFFF)) & 0x87FF) | (opcode << 11)
+        nq = draw(st.sampled_from([0, 0, 1, 1, 2]))
+        body = bytearray()
+        nm = lambda: draw(st.sampled_from([b"\x00", b"\x01a\x00", b"\x03www\x07example\x00", b"\xc0\x0c"]))
+        for _ in range(nq):
+            body += nm() + struct.pack("!HH", draw(st.sampled_from([1, 6, 255, 252, 251])), draw(st.sampled_from([1, 3, 254, 255])))
+        counts = draw(st.sampled_from([[0, 0, 1], [0, 0, 2], [1, 0, 0], [0, 1, 0], [1, 1, 1], [0, 0, 0], [2, 0, 1], [0, 1, 1]]))
+        for _ in range(sum(counts)):
+            t = draw(st.sampled_from([1, 2, 6, 16, 41, 250, 255, 46, 5, 28, 65280]))
+            c = draw(st.sampled_from([1, 1, 254, 255, 254, 255, 3, 0xFE00, 1232]))
+            rdata = {1: b"\x0a\x00\x00\x01", 2: b"\x02ns\xc0\x0c", 16: b"\x01x", 28: b"\x00" * 16, 5: b"\x00"}.get(t, b"")
+            if draw(st.integers(0, 2)) == 0:
+                rdata = b""
+            body += nm() + struct.pack("!HHIH", t, c, draw(st.sampled_from([0, 0, 300, 0x80000000])), len(rdata)) + rdata
+        w = struct.pack("!HHHHHH", draw(st.integers(0, 65535)), flags_, nq, *counts) + bytes(body)
+        if draw(st.integers(0, 3)) == 0:
+            w = draw(mutate_bytes(w))
+    elif mode == 0:
         w = draw(st.binary(max_size=80))
     else:
         import dns.exception
